@@ -175,6 +175,8 @@ Definition num_marshal (d : dec) : text := render d.
 Definition stored_exp_ok (len : nat) (e : Z) : bool :=
   let limit := Z.max 1000 (Z.of_nat len) in ((- limit <=? e) && (e <=? limit))%Z.
 
+(* [s] is a valid JSON number token: encoding/json refuses anything else ("+1", ".5") before this conversion sees it,
+   and the driver only submits valid tokens *)
 Definition num_unmarshal (s : text) : option dec :=
   match new_from_string s with
   | Some d => if stored_exp_ok (length s) (dexp d) then Some d else None
